@@ -268,14 +268,21 @@ func (c *Ctx) c16BuiltinNamed() {
 			"declared in a file between":   {"app/a.go": bare(meth), "app/m.go": bare(def, vr), "app/z.go": file(main, use)},
 		}
 		for _, l := range sortedKeys(layouts) {
-			c.Rep.Oracle["package-permutation"]++
-			c.Rep.Count("builtin-named-layout")
-			if got := c16Run(layouts[l]); got != want {
-				var text []string
-				for _, f := range sortedKeys(layouts[l]) {
-					text = append(text, "// "+f+"\n"+string(layouts[l][f].Data))
+			// the package loaded directly, and imported under a path that differs from its name
+			nested := fstest.MapFS{"main/main.go": &fstest.MapFile{Data: []byte("package main\n\nimport \"example.com/x/app\"\n\nfunc Main() {\n\tapp.Main()\n}\n")}}
+			for f, d := range layouts[l] {
+				nested["example.com/x/"+f] = d
+			}
+			for _, fs := range []fstest.MapFS{layouts[l], nested} {
+				c.Rep.Oracle["package-permutation"]++
+				c.Rep.Count("builtin-named-layout")
+				if got := c16Run(fs); got != want {
+					var text []string
+					for _, f := range sortedKeys(fs) {
+						text = append(text, "// "+f+"\n"+string(fs[f].Data))
+					}
+					c.Rep.Violate(Violation{Kind: "oracle", Cut: "package-permutation", Input: "func " + name + " " + l + ":\n" + strings.Join(text, "\n"), Impl: got, Oracle: want})
 				}
-				c.Rep.Violate(Violation{Kind: "oracle", Cut: "package-permutation", Input: "func " + name + " " + l + ":\n" + strings.Join(text, "\n"), Impl: got, Oracle: want})
 			}
 		}
 	}
